@@ -556,7 +556,13 @@ def _plan_reduction(P, k, p, seed, det, root, ip):
 
 
 # ---------------------------------------------------------------------------------------------
+BLOCKED4 = [0, 4, 8, 12, 1, 5, 9, 13, 2, 6, 10, 14, 3, 7, 11, 15, 16]     # with nhosts=4: consecutive ranks of a communicator share a host
+
+
 def members_of(case, p):
+    """world ranks of the communicator of size p, in communicator-rank order: an explicit order ("members") or rot + i*step mod 17"""
+    if case.get("members"):
+        return list(case["members"][:p])
     rot, step = case.get("rot", 0) % NP, case.get("step", 1) % NP or 1
     return [(rot + i * step) % NP for i in range(p)]
 
